@@ -618,3 +618,24 @@ Theorem C12_gen_api_get_after_new : forall s r st,
   gen_api_get s r (snd (gen_api_new s r st)) = (r_fresh r, Some (r_fresh r)).
 Proof. exact gen_api_get_after_new. Qed.
 Print Assumptions C12_gen_api_get_after_new.
+
+(* ---- last round: views registered through add_exception_view / add_notfound_view / add_forbidden_view *)
+Theorem C12_facts_special_views_opt_out : special_views_opt_out = true.
+Proof. exact Facts_ok_special. Qed.
+Print Assumptions C12_facts_special_views_opt_out.
+
+Theorem C12_special_views_never_checked : forall pr c r,
+  c_explicit c = special_explicit -> view_outcome_p pr c r = Ran.
+Proof. exact special_views_never_checked. Qed.
+Print Assumptions C12_special_views_never_checked.
+
+Theorem C12_exception_view_checked_only_when_told : forall pr c r,
+  c_exception_only c = true -> view_outcome_p pr c r <> Ran -> c_explicit c = Some true.
+Proof. exact exception_view_checked_only_when_told. Qed.
+Print Assumptions C12_exception_view_checked_only_when_told.
+
+Theorem C12_exception_view_told_is_gated : forall c r,
+  c_exception_only c = true -> c_explicit c = Some true -> wf_tokens c r = true ->
+  (view_outcome c r = Ran <-> spec_runs c r = true).
+Proof. exact exception_view_told_is_gated. Qed.
+Print Assumptions C12_exception_view_told_is_gated.
